@@ -25,31 +25,31 @@ def draw_int(d, r, pv):
 
 def gen_plan(rng, nvars=None):
     """Hierarchy of distributed variables.  Plan nodes (topological):
-    v value, p proxy, c Calc (cached intermediate), t TransientCalc, d Dist (of a Var)."""
+    v value (hyper-parameter without distribution, or the value of a distributed Var),
+    p proxy, c Calc (cached intermediate), t TransientCalc, d Dist (of a Var).
+    Intermediate calcs form arbitrary small DAGs (diamonds, shared inputs) with inputs in
+    random order."""
     nvars = nvars or rng.randint(2, 4)
-    plan, vars_ = [], []   # vars_: (value id, proxy id)
+    plan, avail = [], []      # avail: node ids other nodes may take as inputs
+    for _ in range(rng.randint(0, 2)):
+        plan.append({"kind": "v", "inp": [], "shape": rng.choice(SHAPES)})
+        avail.append(len(plan))
     for k in range(nvars):
-        # parameters of this variable's distribution: proxies of earlier vars, directly or via calcs
-        params = []
-        for (vi, pi) in vars_:
-            u = rng.random()
-            if u < 0.35:
-                params.append(pi)
-            elif u < 0.75:
-                kind = rng.choice(["c", "c", "t"])
-                src = [pi] + ([rng.choice(vars_)[1]] if rng.random() < 0.3 else [])
-                plan.append({"kind": kind, "inp": sorted(set(src))})
-                cid = len(plan)
-                if rng.random() < 0.3:  # chain of two intermediate calcs
-                    plan.append({"kind": rng.choice(["c", "t"]), "inp": [cid]})
-                    cid = len(plan)
-                params.append(cid)
+        for _ in range(rng.randint(0, 3)):
+            if not avail:
+                break
+            ins = rng.sample(avail, min(len(avail), rng.choice([1, 1, 2, 2, 3])))
+            rng.shuffle(ins)
+            plan.append({"kind": rng.choice(["c", "c", "c", "t"]), "inp": ins})
+            avail.append(len(plan))
+        params = rng.sample(avail, min(len(avail), rng.choice([0, 1, 1, 2, 3]))) if avail else []
+        rng.shuffle(params)
         plan.append({"kind": "v", "inp": [], "wrapped": True, "shape": rng.choice(SHAPES)})
         vi = len(plan)
         plan.append({"kind": "p", "inp": [vi]})
         pi = len(plan)
         plan.append({"kind": "d", "inp": params + [pi], "var": k})
-        vars_.append((vi, pi))
+        avail.append(pi)
     return plan
 
 
@@ -64,7 +64,9 @@ class SimRun:
         pending = {}
         for i, p in enumerate(plan, start=1):
             name = f"n{i}"
-            if p["kind"] == "v":
+            if p["kind"] == "v" and not p.get("wrapped"):
+                self.nodes[i] = lsl.Value(jnp.zeros(p["shape"], jnp.float32) + float(i), _name=name)
+            elif p["kind"] == "v":
                 pending[i] = jnp.zeros(p["shape"], jnp.float32) + float(i)
             elif p["kind"] == "p":
                 pass  # created together with the dist node below
@@ -170,13 +172,23 @@ class SimRun:
 
 def gen_ops(rng, plan, nops):
     vals = [i + 1 for i, p in enumerate(plan) if p["kind"] == "v"]
+    dvals = [i + 1 for i, p in enumerate(plan) if p["kind"] == "v" and p.get("wrapped")]
     ops = []
-    for _ in range(nops):
+
+    def sim():
+        k = rng.randint(0, max(0, len(dvals) - 1))
+        return {"ev": "simulate", "seed": rng.randint(0, 10**6),
+                "skip": sorted(rng.sample(dvals, k)) if rng.random() < 0.5 else [],
+                "skip_how": rng.choice(["var", "dist", "at"])}
+
+    while len(ops) < nops:
         r = rng.random()
-        if r < 0.4:
-            k = rng.randint(0, max(0, len(vals) - 1))
-            ops.append({"ev": "simulate", "seed": rng.randint(0, 10**6), "skip": sorted(rng.sample(vals, k))
-                        if rng.random() < 0.5 else [], "skip_how": rng.choice(["var", "dist", "at"])})
+        if r < 0.3:
+            ops.append(sim())
+        elif r < 0.45:
+            # assignment with auto-update off, switched back on without an update, then simulate
+            ops += [{"ev": "set_auto", "b": False}, {"ev": "assign", "n": rng.choice(vals), "x": rng.randint(1, 9)},
+                    {"ev": "set_auto", "b": True}, sim()]
         elif r < 0.6:
             ops.append({"ev": "assign", "n": rng.choice(vals), "x": rng.randint(1, 9)})
         elif r < 0.8:
@@ -206,3 +218,41 @@ def replay_trace(hdr):
     h = run.header()
     h["ops"] = hdr["ops"]
     return {"hdr": h, "ev": [run.op(o) for o in hdr["ops"]]}
+
+
+def diamond_plans():
+    """Parent x -> q = g(x), p = h(q), t = f(p, q) (both input orders) -> child's parameter."""
+    out = []
+    for order in ([5, 4], [4, 5]):
+        for kinds in (("c", "c", "c"), ("c", "t", "c"), ("t", "c", "c")):
+            plan = [
+                {"kind": "v", "inp": [], "wrapped": True, "shape": ()},
+                {"kind": "p", "inp": [1]},
+                {"kind": "d", "inp": [2], "var": 0},
+                {"kind": kinds[0], "inp": [2]},            # q
+                {"kind": kinds[1], "inp": [4]},            # p
+                {"kind": kinds[2], "inp": list(order)},    # t
+                {"kind": "v", "inp": [], "wrapped": True, "shape": (3,)},
+                {"kind": "p", "inp": [7]},
+                {"kind": "d", "inp": [6, 8], "var": 1},
+            ]
+            out.append(plan)
+    return out
+
+
+def fixed_traces():
+    out = []
+    for plan in diamond_plans():
+        for auto in (False, True):
+            run = SimRun(plan)
+            hdr = run.header()
+            ops = [{"ev": "set_auto", "b": auto},
+                   {"ev": "simulate", "seed": 11, "skip": [], "skip_how": "var"},
+                   {"ev": "update_all"},
+                   {"ev": "simulate", "seed": 12, "skip": [7], "skip_how": "dist"},
+                   {"ev": "assign", "n": 1, "x": 4},
+                   {"ev": "simulate", "seed": 13, "skip": [1], "skip_how": "at"},
+                   {"ev": "update_all"}]
+            hdr["ops"] = ops
+            out.append({"hdr": hdr, "ev": [run.op(o) for o in ops]})
+    return out
